@@ -14,9 +14,65 @@ THEOREMS = [dyncheck.P + t for t in ["C05_force_fresh", "C05_force_fresh_init", 
                                      "C05_vv_reversible", "C05_vv_const_accel", "C05_const_forces", "C05_euler_const_rate"]]
 
 
+def lambda_scalar_oracle(ctx):
+    """implementation-side oracle for the predictor-corrector integrator of user scalars (IntegratorScalarLambda; not part of the Lean
+    model): a constant rate c must give q(t_n) = q0 + n dt c exactly, for every lambda and step count (dyadic data => exact)."""
+    import os, shutil
+    from fractions import Fraction as F
+    import common, symlib
+    r = common.rng(ctx.seed, "c05-lambda")
+    bad, n = [], 0
+    base = os.path.join(common.WORK, "c05l-%d" % os.getpid())
+    for case in range(10 if not ctx.thorough else 120):
+        lam = r.choice(["1/4", "1/2", "3/4", "1", "1/8", "5/8"])
+        c = F(r.choice([3, 1, -2, 5]), r.choice([1, 2, 4]))
+        dt = F(1, r.choice([4, 8, 16]))
+        steps = r.randrange(1, 8)
+        parts = []
+        for k in range(r.randrange(1, 6)):
+            parts.append({"species": "A", "frozen": False, "r": [symlib.rat(F(r.randrange(1, 31), 8)) for _ in range(3)], "v": ["0", "0", "0"],
+                          "tags": {"q": symlib.rat(F(r.randrange(-8, 8), 4))}})
+        sc = {"box": ["4", "4", "4"], "periodic": [True, True, True], "controller": {"dt": symlib.rat(dt), "timesteps": steps},
+              "integrators": [["IntegratorVelocityVerlet", {"species": "A", "lambda": "1/2", "mass": "1"}],
+                              ["IntegratorScalarLambda", {"species": "A", "scalar": "q", "symbol": "q", "lambda": lam}]],
+              "modules": [["FParticleScalar", {"species": "A", "scalar": "q", "expression": symlib.rat(c) if c.denominator == 1 else "(%d/%d)" % (c.numerator, c.denominator)}],
+                          ["FPairVels", {"species1": "A", "species2": "A", "cutoff": "1", "pairFactor": "0*[rij]"}]],
+              "particles": parts, "species_order": ["A"], "tag_columns": {"A": ["q"]}}
+        d = os.path.join(base, "c%d" % case)
+        shutil.rmtree(d, ignore_errors=True)
+        symlib.write_case(d, sc)
+        rc, out = symlib.run_sympler(d, common.sympler(), timeout=120)
+        if rc != 0:
+            bad.append(dict(scenario=sc, detail="sympler failed: " + out[-200:]))
+            continue
+        st = symlib.parse_obs(os.path.join(d, "obs.txt"))
+        n += 1
+        q0 = {p["slot"]: F(p0["tags"]["q"]) for p, p0 in zip(st[0]["particles"], parts)}
+        for s_ in st:
+            k = s_["step"] + 1
+            for p in s_["particles"]:
+                got = p["tag"]["q"][2]
+                want = q0[p["slot"]] + k * dt * c
+                if got != want:
+                    bad.append(dict(scenario=sc, detail="lambda=%s: scalar q of particle %d after %d steps is %s, the constant rate %s gives %s" % (lam, p["slot"], k, got, c, want)))
+                    break
+            if bad and bad[-1]["scenario"] is sc:
+                break
+    shutil.rmtree(base, ignore_errors=True)
+    return n, bad
+
+
 def run(ctx):
     import dyngen
     dyncheck.check(ctx, "C05", THEOREMS + dyngen.THEOREMS_C05, "Props.C05", pre=dyngen.translate, extra_modules=dyngen.EXTRA)
+    n, bad = lambda_scalar_oracle(ctx)
+    ok = ctx.oblige("oracle: IntegratorScalarLambda reproduces a constant rate exactly for every lambda and step count (%d scenarios; not part of the Lean model)" % n, n > 0 and not bad,
+                    str([b["detail"] for b in bad[:2]])[:400])
+    if not ok and bad:
+        b = bad[0]
+        ctx.violations = [v for v in ctx.violations if v["found_input"]]     # a concrete failing input replaces "no-failing-input-found"
+        ctx.violation("C05 violated on the real binary: " + b["detail"][:300],
+                      dict(kind="input", scenario=b["scenario"], detail=b["detail"], how_to_replay="symlib.write_case(dir, scenario); sympler in.xml; attribute q in obs.txt"), True)
     ctx.assumptions += ["exact-arithmetic regime; beyond the exact horizon states are compared to 1e-9 and never counted as disagreement",
                         "walls/reflectors are not part of this model (C08); scenarios with reflector hits are skipped",
                         "PARTIAL: the order of convergence is not proved in Lean (reduction to the textbook velocity-Verlet map is)"]
